@@ -772,3 +772,31 @@ Lemma s_match_example :
   S_match [CSym (S_ "else")] DOTS (rd "(a b ... else (c d))") (rd "(1 2 3 else (4 5))") = true /\
   S_match [] DOTS (rd "(a ... b)") (rd "(1)") = false.
 Proof. split; vm_compute; reflexivity. Qed.
+
+(* existential forms, as stated in Props/C17.v *)
+Lemma ex_refuted_nested_ellipsis : exists d u, refuted d u.
+Proof. do 2 eexists. exact refuted_nested_ellipsis. Qed.
+Lemma ex_refuted_var_twice : exists d u, refuted d u.
+Proof. do 2 eexists. exact refuted_var_twice. Qed.
+Lemma ex_refuted_vector_template : exists d u, refuted d u.
+Proof. do 2 eexists. exact refuted_vector_template. Qed.
+Lemma ex_refuted_dotted_template : exists d u, refuted d u.
+Proof. do 2 eexists. exact refuted_dotted_template. Qed.
+Lemma ex_refuted_ellipsis_var_without_ellipsis : exists d u, refuted d u.
+Proof. do 2 eexists. exact refuted_ellipsis_var_without_ellipsis. Qed.
+Lemma ex_refuted_stale_cursor : exists d u, refuted d u.
+Proof. do 2 eexists. exact refuted_stale_cursor. Qed.
+Lemma ex_refuted_dotted_pattern_fallthrough : exists d u, refuted d u.
+Proof. do 2 eexists. exact refuted_dotted_pattern_fallthrough. Qed.
+Lemma ex_refuted_dotted_pattern_binding : exists d u, refuted d u.
+Proof. do 2 eexists. exact refuted_dotted_pattern_binding. Qed.
+Lemma ex_refuted_ellipsis_tail_zero_items : exists d u, refuted d u.
+Proof. do 2 eexists. exact refuted_ellipsis_tail_zero_items. Qed.
+Lemma ex_refuted_vector_pattern_literal : exists d u, refuted d u.
+Proof. do 2 eexists. exact refuted_vector_pattern_literal. Qed.
+Lemma ex_refuted_var_twice_hang : exists d u, supported d u = false /\
+  exists tr, transform_try_new d = Ok tr /\ transform_apply tr u = NoFuel.
+Proof.
+  exists (defn "() ((_ a ...) '((a (a ...)) ...))"), (rd "(m 1 2)").
+  split; [vm_compute; reflexivity|]. eexists. split; vm_compute; reflexivity.
+Qed.
